@@ -199,5 +199,100 @@ def _guard_text(cfg, node):
     return src(best.ast, 40) if best is not None else 'unconditional'
 
 
+def rule_n5(repo):
+    """Type matching underlies every term match.  Per kind of the pattern type, matching may complete only
+    behind the test that makes the instantiated pattern equal to the target: a bound schematic variable
+    and a rigid type variable behind an equality test with the target, a constructor behind the tests that
+    the target is the same constructor, and through the recursion over the arguments."""
+    res = RuleResult('C09.N5', 'Type.match_incr completes, for each kind of pattern type, only behind the equality / constructor tests against the target', floor=4)
+    f = repo.func(TYPE, 'Type.match_incr')
+    cfg = cfg_of(f.node)
+    params = f.params()
+    need(len(params) >= 3, 'Type.match_incr: parameters changed')
+    T, inst = params[1], params[2]
+
+    def kind_test(attr):
+        ts = [n for n in cfg.test_nodes() if isinstance(n.ast, ast.Call) and call_attr(n.ast) == attr and is_name(n.ast.func.value, 'self')]
+        need(ts, 'Type.match_incr: branch self.%s() not found' % attr)
+        return ts[0]
+
+    def eq_edges(a_ok, b_ok):
+        def pred(e, pol):
+            cp = compare_parts(e)
+            if not cp or cp[0] not in (ast.Eq, ast.NotEq):
+                return False
+            l, r = src(cp[1]), src(cp[2])
+            if not ((a_ok(l) and b_ok(r)) or (a_ok(r) and b_ok(l))):
+                return False
+            return pol if cp[0] is ast.Eq else not pol
+        return cfg.establishing_edges(pred)
+
+    def completes_without(start, edges=(), nodes=()):
+        return cfg.path_avoiding(cfg.exit, skip_edges=set(edges), skip_nodes=list(nodes), start=start) is not None
+
+    # rigid type variable
+    t = kind_test('is_tvar')
+    start = [b for b, l in t.succ if l == 'true'][0]
+    edges = eq_edges(lambda x: x == 'self', lambda x: x == T)
+    ok = bool(edges) and not completes_without(start, edges)
+    res.add('%s :: Type.match_incr :: tvar :: equal-to-target' % TYPE, ok,
+            'a rigid type variable matches only itself' if ok else
+            'a non-schematic type variable of the pattern can match a different type: the match succeeds although no '
+            'instantiation makes the pattern equal to the target', '%s:%d' % (TYPE, t.lineno))
+    # schematic variable that already has a binding
+    t = kind_test('is_stvar')
+    bound = [n for n in cfg.test_nodes() if compare_parts(n.ast) and compare_parts(n.ast)[0] in (ast.In, ast.NotIn) and
+             is_name(compare_parts(n.ast)[2], inst)]
+    need(bound, 'Type.match_incr: test whether the schematic variable is bound not found')
+    lab = 'true' if compare_parts(bound[0].ast)[0] is ast.In else 'false'
+    start = [b for b, l in bound[0].succ if l == lab][0]
+    edges = eq_edges(lambda x: x == T, lambda x: x.startswith(inst + '['))
+    ok = bool(edges) and not completes_without(start, edges)
+    res.add('%s :: Type.match_incr :: stvar-bound :: equal-to-binding' % TYPE, ok,
+            'a bound schematic type variable matches only its binding' if ok else
+            'a schematic type variable that already has a binding can match a different type', '%s:%d' % (TYPE, bound[0].lineno))
+    # constructor
+    t = kind_test('is_tconst')
+    start = [b for b, l in t.succ if l == 'true'][0]
+
+    def same_con(e, pol):
+        return isinstance(e, ast.Call) and call_attr(e) == 'is_tconst' and is_name(e.func.value, T) and pol
+    e1 = cfg.establishing_edges(same_con)
+    e2 = eq_edges(lambda x: x == 'self.name', lambda x: x == T + '.name')
+    ok = bool(e1) and bool(e2) and not completes_without(start, e1) and not completes_without(start, e2)
+    res.add('%s :: Type.match_incr :: tconst :: same-constructor' % TYPE, ok,
+            'a constructor matches only the same constructor' if ok else
+            'a type constructor of the pattern can match a variable or a different constructor', '%s:%d' % (TYPE, t.lineno))
+    loops = [it for it in cfg.nodes_of_kind('iter') if 'args' in src(it.ast.iter) and
+             any(isinstance(c, ast.Call) and call_attr(c) == 'match_incr' for st in it.ast.body for c in ast.walk(st))]
+    ok = bool(loops) and not completes_without(start, nodes=loops)
+    res.add('%s :: Type.match_incr :: tconst :: arguments-matched' % TYPE, ok,
+            'the arguments are matched recursively' if ok else 'a constructor type can match without its arguments being matched', '%s:%d' % (TYPE, t.lineno))
+    return res
+
+
+def rule_n6(repo):
+    """Every binding of a schematic variable fixes the type of the pattern variable too: the store
+    `inst[name] = t` is preceded by matching the variable's type against the type of what it is bound to.
+    Otherwise ?n::nat matches `true` and applying the instantiation to the pattern fails."""
+    res = RuleResult('C09.N6', 'a schematic variable is bound only after its type was matched against the type of the term it is bound to', floor=3)
+    f = repo.func(MATCHER, 'first_order_match')
+    for name, g in f.nested.items():
+        cfg = cfg_of(g.node)
+        tm = [n for n in cfg.nodes if n.kind == 'stmt' and any(
+            isinstance(c, ast.Call) and call_attr(c) == 'match_incr' and c.args and path_of(c.args[-1]) == 'inst.tyinst' and
+            (path_of(c.func.value) or '').endswith('.T') for c in ast.walk(n.ast))]
+        for n in cfg.stmt_nodes(ast.Assign):
+            for t in n.ast.targets:
+                if isinstance(t, ast.Subscript) and is_name(t.value, 'inst'):
+                    ok = bool(tm) and cfg.path_avoiding(n, skip_nodes=tm) is None
+                    res.add('%s :: first_order_match.%s :: typed-bind(%s)@%s' % (MATCHER, name, src(t.slice), src(n.ast.value, 30)), ok,
+                            'the type of the pattern variable is matched first' if ok else
+                            '`%s` is reachable without matching the type of the schematic variable: a variable of one type is bound to '
+                            'a term of another, and the instantiated pattern is not the target (not even well-typed)' % src(n.ast),
+                            '%s:%d' % (MATCHER, n.lineno))
+    return res
+
+
 def rules(repo):
-    return [rule_n1(repo), rule_n2(repo), rule_n3(repo), rule_n4(repo)]
+    return [rule_n1(repo), rule_n2(repo), rule_n3(repo), rule_n4(repo), rule_n5(repo), rule_n6(repo)]
